@@ -327,7 +327,9 @@ def r4(ctx):
                     ctx.bad("%s.%s:set_state(%s)" % (cname, name, norm(call.args[0])), where(c.module, call), "state argument is not a state constant")
                     continue
                 if s in term:
-                    ctx.check("%s.%s:set_state(%s)" % (cname, name, inv.get(s)), len(call.args) == 1 and not call.keywords, where(c.module, call),
+                    targ = call.args[1] if len(call.args) > 1 else next((k_.value for k_ in call.keywords if k_.arg == "timer"), None)
+                    no_timer = targ is None or (prog.try_const(c.module, targ) == 0 and prog.try_const(c.module, targ) is not False)
+                    ctx.check("%s.%s:set_state(%s)" % (cname, name, inv.get(s)), no_timer and len(call.args) <= 2, where(c.module, call),
                               "a terminal transition must not arm a timer")
                     continue
                 waiting.add(s)
